@@ -116,6 +116,16 @@ def run_case(ctx, name, params):
             alg.evaluate(warm)
         except BaseException:
             pass
+        # workers of an aborted warm-up batch may still be parked at a gate or inside the objective: let them drain
+        import time as _t
+        t_end = _t.time() + 3.0
+        while _t.time() < t_end:
+            busy = any(c.result is None and c.exc is None for c in list(p.calls)) or (S is not None and S.parked)
+            if not busy:
+                _t.sleep(0.01)
+                if not (any(c.result is None and c.exc is None for c in list(p.calls)) or (S is not None and S.parked)):
+                    break
+            _t.sleep(0.002)
         ctx.count("warmup_batches")
         del p.failed[:]
         del p.calls[:]
